@@ -36,7 +36,8 @@ def required_cells(tier):
     for v in ("L/other-point", "L/direction-scaled", "L/direction-negated", "L/two-point-form", "PL/other-point",
               "PL/normal-scaled", "PL/normal-negated", "PL/three-point-form", "PL/two-vector-form", "S/swapped",
               "S/point-vector-form", "H/direction-scaled", "H/two-point-form", "PG/rotated", "PG/reflected", "PG/duplicates",
-              "PG/shuffled", "PH/face-order", "PH/face-orientation", "any/numeric-type", "any/move-and-back", "any/used-then-moved-into-place", "any/negative-zero"):
+              "PG/shuffled", "PH/face-order", "PH/face-orientation", "any/numeric-type", "any/move-and-back", "any/used-then-moved-into-place", "any/negative-zero",
+              "any/other-of-(receiver,returned)-moved-on"):
         req["variant:" + v] = 15 if q else 300
     req["foreign-type"] = 100
     req["near-miss:coordinate -1 vs -2"] = 50
@@ -114,6 +115,16 @@ def _variant(G, d, r):
         # built elsewhere, used there (hashed, compared, queried), then moved into place
         h = C.make_hist(r, d)
         h["touch"] = True
+        if h.get("alias"):
+            # ... and afterwards the other one of (receiver, returned object) is moved on; the object is then compared
+            # with a fresh one built from what its own public attributes say (see common.reread)
+            h["reread_ok"] = True
+            o = C.lift_via_history(d, h, r)
+            nd = h.get("_reread")
+            if nd is not None:
+                _variant.reread = nd
+                return "any/other-of-(receiver,returned)-moved-on", o
+            return "any/used-then-moved-into-place", C.lift_via_history(d, dict(h, alias=False), r)
         return "any/used-then-moved-into-place", C.lift_via_history(d, h, r)
     if ch < 0.24 and k != "VEC":
         o = lift(d, None)
@@ -298,9 +309,12 @@ def judge(case):
     d = case["d"]
     k = d[0]
     mu = core.Multi()
-    A = lift(d, None)
     r = random.Random(case["vs"])
+    _variant.reread = None
     lab, B = _variant(G, d, r)
+    if _variant.reread is not None:
+        d = _variant.reread
+    A = lift(d, None)
     mu.cell("same:" + k, "variant:" + lab)
     # the variant must really denote the same set (guards the harness itself)
     if k != "VEC":
